@@ -12,7 +12,7 @@ Model: `Cedar.typeOf` (Cedar/Validation/Typecheck.lean), the mirror of `SingleEn
 permissive mode, tied to the Rust typechecker by the differential run of `./check C03` (per policy and request
 environment, both modes, plus the impossible-policy flag).
 
-FULL STATEMENT: `typeOf_sound` below (a `def … : Prop`, all expressions, both modes).
+FULL STATEMENT: `typeOf_sound` below (a `def … : Prop`, all expressions, both modes); `PermissiveSoundFull` is its permissive half.
 
 PROVED (0): `typeOf_sound_strict` — THE FULL STATEMENT WITH `m := .strict`, for every expression all of whose slots have a
 type in the environment (`SlotsLinked`); it is (1) plus `inFragment2_of` (distinct record keys + linked slots ⇒ fragment).
@@ -37,10 +37,29 @@ PROVED (2): `typeOf_sound_partialM` — the statement for BOTH modes on `InFragm
     construct as in (1), except that an `if` (typechecked in both branches) has a syntactically flat branch (boolean / long /
     string kind) and a set literal is non-empty with syntactically flat elements.
     (`typeOf_sound_partial`, the first fragment `Cedar.InFragment` for both modes, is kept; it needs `SchemaWF` only.)
-NOT proved: PERMISSIVE typing of an `if` / set literal that joins record, set or entity types, and of the empty set literal —
-there the static types contain entity-type unions (`lub` of `User` and `Group`) and `Set<Never>`, which the invariant
-`CedarType.mono` of the proofs excludes; a slot in an environment that has no type for it (Rust types it `AnyEntity`; such a
-slot does not occur: `link_request_env` gives every slot of the policy a type; see `SlotsBound` in the full statement);
+PROVED (3), PERMISSIVE MODE WITH NON-FLAT JOINS: `typeOf_sound_permissive_partial` — the statement for `m := .permissive` on
+    `InFragmentP env` (Lemmas/TypecheckPSound.lean): the fragment of (2) closed under
+      * `if` typechecked in both branches with ARBITRARY branch types, joined by the permissive least upper bound — a union of
+        entity types (`User ⊔ Group`), `AnyEntity`, a record join (width / depth subtyping, dropped attributes, open records) —
+        where the `then` branch is a literal, `principal`, `action`, `resource`, a slot or a flat expression (`ndBase`);
+      * set literals of such elements with arbitrary element types (`[principal, resource]`) and `[]` (typed `Set<Never>`);
+      * `==` (typed Bool, or False on disjoint unions), `contains` `containsAll` `containsAny` `isEmpty` `&&` `||` `!` over these.
+    The proof invariant there is "the static type is not `Never`" instead of `mono`.
+  `instance_of_lub` (the subtyping lemma, both modes): every value of either argument of `lub m` is a value of the bound;
+    `InstanceOfType` already interprets every type only permissive mode produces and was not extended.  The left half needs
+    distinct record keys inside the left type (`ndTy`): `lubAttrsPermissive` drops entries, `Attrs.find?` finds the first one.
+  Each permissive-only rule is also shown sound on its own for arbitrary operand types (Lemmas/TypecheckPRules.lean:
+    `permissive_ite_join_sound`, `permissive_set_literal_inst`, `typesDisjoint_sound`, `is_union_sound`).
+  Policy level: `permissive_validation_sound_partial`, `permissive_validation_sound_static_partial`,
+    `impossible_policy_never_satisfied_static_permissive`; examples `exJoinEq`, `exSetMixed`, `exPermissivePolicy` are accepted
+    by permissive mode, rejected by strict mode, and evaluate to booleans on the conformant `ex2World`.
+  No permissive typing rule of the model was found unsound.
+NOT proved (`PermissiveSoundFull`, a `def … : Prop`, is the full permissive statement): `has` / `.` / `hasTag` / `getTag` / `in` /
+`is` / `<` applied to an operand whose type is an entity-type union or a joined record type (for example
+`(if c then principal else resource).name` — needs `lubAttrs` of a union against the store), joins whose `then` branch is an
+attribute access, a record literal or itself a non-flat join (needs "typeOf yields distinct record keys", which needs that of
+the schema's types); a slot in an environment that has no type for it (Rust types it `AnyEntity`; such a slot does not occur:
+`link_request_env` gives every slot of the policy a type; see `SlotsBound` in the full statement);
 record literals with duplicate keys (not representable in Rust).  These are covered by the differential run against Rust
 and by the implementation-level soundness search of harness/src/c03.rs only.
 `strict_implies_permissive` (full statement: a `def … : Prop`) is PROVED as `strict_implies_permissive_strict` — with the
